@@ -90,13 +90,19 @@ func (g *genSet) write(repo, verifDir string) {
 		"func Token() ictx.Token { return ictx.Token{N: 5} }\nfunc Spend(t ictx.Token) uint8 { return uint8(t.N) }\n", modPath))
 	writeFile(filepath.Join(g.dir, "othertime", "othertime.go"), "// Package othertime is a user package that files import under the name time.\npackage othertime\n\nconst Marker = 1\n")
 	var pkgs []string
+	havePkg := map[string]bool{}
 	per := g.per
 	if per <= 0 {
 		per = perPkg
 	}
 	for i, p := range g.progs {
 		pkg := fmt.Sprintf("f%d", i/per)
-		if i%per == 0 {
+		if p.Alone {
+			pkg = "a" + strings.ToLower(p.ID)
+			pkgs = append(pkgs, pkg)
+			writeFile(filepath.Join(g.dir, pkg, "types.go"), pg.TypesFile(pkg))
+		} else if !havePkg[pkg] {
+			havePkg[pkg] = true
 			pkgs = append(pkgs, pkg)
 			writeFile(filepath.Join(g.dir, pkg, "types.go"), pg.TypesFile(pkg))
 		}
